@@ -8,6 +8,7 @@ for p0 in "$@"; do p=$(realpath "$p0")
   git -C /repo worktree add -q --detach $wt HEAD || { echo "MUTANT $p0: cannot create worktree"; continue; }
   if ! git -C $wt apply "$p" 2>/dev/null; then echo "MUTANT $(basename $(dirname $p))/$(basename $p): patch does not apply"; git -C /repo worktree remove --force $wt; continue; fi
   out=$(cd "$(dirname "$0")/.." && VERIF_REPO=$wt VERIF_NO_EVIDENCE=1 ./check $prop 2>&1 | grep -E "^VIOLATION|: ok|: VIOLATION" | head -3)
+  tag=$(printf %s "$wt" | sha1sum | cut -c1-10); rm -f "$(dirname "$0")/../build/"*_$tag "$(dirname "$0")/../build/"alt_$tag.*
   git -C /repo worktree remove --force $wt; git -C /repo worktree prune
   echo "MUTANT $(basename $(dirname $p))/$(basename $p): $out" | tr '\n' ' '; echo
 done
